@@ -8,7 +8,9 @@
 (*           "closed" the dictionary object has been closed                *)
 (*   d       contents of the open dictionary: Keys -> Vals \cup {Absent}   *)
 (*           (Empty while there is no open dictionary)                     *)
-(*   exists  something is stored under the path                            *)
+(*   exists  something is stored under the path (a dictionary, or -- after *)
+(*           Occupy, while no dictionary object exists yet -- a foreign    *)
+(*           file that somebody else put there)                            *)
 (*   onDisk  what an open of the path would load                           *)
 (*   linked  from_dict(src) has produced this dictionary                   *)
 (*   src     the caller's dict that was handed to from_dict; the caller    *)
@@ -41,6 +43,8 @@ Items(m) == {<<k, m[k]>> : k \in Dom(m)}
 
 opened == st = "open"
 Handle == st # "none"
+\* the path is taken by a file that no dictionary object of ours produced (see Occupy)
+foreign == st = "none" /\ exists
 
 Outcomes == {"ok", "KeyError", "ValueError", "TypeError", "FileExistsError", "FileNotFoundError"}
 
@@ -160,9 +164,17 @@ MutSrc(k, v) ==
     /\ src' = [src EXCEPT ![k] = v]
     /\ UNCHANGED <<d, st, onDisk, exists, linked>>
 
+\* the environment puts a foreign file under the path before any dictionary exists (kind: 0 = an empty file, 1 = a file
+\* with some bytes in it; the property makes no difference between them: the path exists)
+Occupy(kind) ==
+    /\ st = "none" /\ ~exists /\ kind \in {0, 1}
+    /\ exists' = TRUE
+    /\ UNCHANGED <<d, st, onDisk, src, linked>>
+
 \* open(path): refused when nothing is stored; otherwise exactly what was persisted last
+\* (what opening a foreign file does is not the property's business: not enabled)
 Open(out) ==
-    /\ ~opened /\ out \in OpenFileOuts
+    /\ ~opened /\ ~foreign /\ out \in OpenFileOuts
     /\ IF out = "ok"
        THEN /\ st' = "open" /\ d' = onDisk
             /\ UNCHANGED <<onDisk, exists, src, linked>>
@@ -194,6 +206,7 @@ PNext ==
     \/ \E k \in Keys, v \in Vals \cup {Absent} : MutSrc(k, v)
     \/ \E o \in Outcomes : Reopen(o)
     \/ \E o \in Outcomes : OpenMissing(o)
+    \/ \E kind \in {0, 1} : Occupy(kind)
 
 PSpec == PInit /\ [][PNext]_pvars
 
